@@ -63,7 +63,8 @@ class Structure(Monitor):
             d = t[-1] - t[-2]          # native precision
             if not d * self.dir > 0:
                 world.violate(P, P + ".monotone_in_loop", "t[-2]=%r t[-1]=%r dir=%d" % (_f(t[-2]), _f(t[-1]), self.dir))
-        if not (np.all(np.isfinite(y[-1])) and np.isfinite(_f(t[-1]))):
+        spiked = any(fr["fault"]["kind"] == "spike" for fr in world.fired)     # a spiked rhs value is garbage the rhs itself returned
+        if not spiked and not (np.all(np.isfinite(y[-1])) and np.isfinite(_f(t[-1]))):
             world.violate(P, P + ".finite_in_loop", "non-finite row at index %d" % (n - 1))
 
     def after_op(self, world, i, op, pre, snap):
@@ -81,7 +82,8 @@ class Structure(Monitor):
             world.violate(P, P + ".starts_at_t0", "t[0]=%r t0=%r" % (_f(t[0]), _f(t0)))
         if not bitwise_equal(y[0], world.caller_y0_copy):
             world.violate(P, P + ".first_state_is_y0", "y[0] differs from y0")
-        if not (np.all(np.isfinite(t)) and np.all(np.isfinite(y))):
+        spiked = any(fr["fault"]["kind"] == "spike" for fr in world.fired)
+        if not spiked and not (np.all(np.isfinite(t)) and np.all(np.isfinite(y))):
             world.violate(P, P + ".finite", "non-finite stored value")
         if snap["kind"] == "reset":
             return
@@ -739,7 +741,8 @@ class FixedStep(Monitor):
             return
         calls = [c for c in world.icalls[self.ic0:] if c["depth"] == 0 and c["nested"] == 1]
         direction = sgn(target - _f(self.start))
-        cur = np.abs(np.asarray(self.dt_before))       # magnitude currently in force (may legitimately shrink after failed solves)
+        cur = np.abs(np.asarray(self.dt_before))       # the requested magnitude
+        allowed = [cur]                                  # plus every shortened step accepted after failed solves (the library may keep it)
         for n_, c in enumerate(calls):
             atts = c["attempts"]
             if not atts:
@@ -754,8 +757,8 @@ class FixedStep(Monitor):
                 world.violate(P, P + ".never_longer", "step %d attempted with |h|=%r, longer than the step in force %r (requested dt=%r, %s)"
                               % (n_, abs(_f(h0)), _f(cur), req, c["cls"]))
                 break
-            if not bitwise_equal(np.abs(h0), cur):
-                # shorter than the step in force: only the final clamp of the call
+            if not any(bitwise_equal(np.abs(h0), a_) for a_ in allowed):
+                # neither the requested step nor one shortened by an earlier failed solve: only the final clamp of the call
                 clamp = remaining is not None and bitwise_equal(np.abs(h0), remaining)
                 if not clamp:
                     world.violate(P, P + ".exact_step", "step %d attempted with |h|=%r instead of the requested %r (t=%r, target %r, %s)"
@@ -788,7 +791,7 @@ class FixedStep(Monitor):
                     world.violate(P, P + ".recorded_is_attempted", "recorded dTime %r differs from the last attempted h %r" % (_f(c["dTime"]), _f(atts[-1]["h"])))
                 # the step in force for the next call: unchanged, or the shortened step after failed solves
                 if len(atts) > 1:
-                    cur = np.minimum(cur, np.abs(c["dTime"]))
+                    allowed.append(np.abs(c["dTime"]))
                     world.probe("implicit_step_shortened")
         # recorded grid: all steps but the last equal the step in force
         t = snap["t"]
